@@ -296,11 +296,21 @@ func VH_c12_deferral() {
 		}
 	}
 	vTransition(s, p1, bgp.BGP_FSM_ESTABLISHED, fsmOpenMsgNegotiated)
-	vTransition(s, p2, bgp.BGP_FSM_ESTABLISHED, fsmOpenMsgNegotiated)
+	late := vBool("second_peer_establishes_late")
+	if !late {
+		vTransition(s, p2, bgp.BGP_FSM_ESTABLISHED, fsmOpenMsgNegotiated)
+	}
 	vRecv(s, p1, vUpdate4(vPrefix4(10, 1, 0, 0, 16), false, []uint32{65001}, vAddr4(10, 0, 0, 2)), 10)
 	vRecv(s, p1, bgp.NewEndOfRib(bgp.RF_IPv4_UC), 11)
 	drain()
 	vAssert(told[p2] == 0 && told[p1] == 0, "a restarting speaker advertised routes before every graceful-restart peer had sent End-of-RIB")
+	vAssert(p1.fsm.pConf.ReadOnly().GracefulRestart.State.LocalRestarting, "the restart phase ended although a graceful-restart peer has not sent End-of-RIB (it may not even be established yet)")
+	if late {
+		// the second graceful-restart peer comes up only now
+		vTransition(s, p2, bgp.BGP_FSM_ESTABLISHED, fsmOpenMsgNegotiated)
+		drain()
+		vAssert(told[p2] == 0, "a restarting speaker advertised routes to a peer that has just come up, before its End-of-RIB")
+	}
 	if vBool("second_peer_sends_end_of_rib") {
 		vRecv(s, p2, bgp.NewEndOfRib(bgp.RF_IPv4_UC), 12)
 		drain()
